@@ -1897,8 +1897,17 @@ class Exec:
                 elif isinstance(A[0], (VBytes, VBuf)):
                     z = self.seq(A[0], st)
                 elif isinstance(A[0], VList):
-                    us = [z3.Unit(self.as_int(x)) for x in self.items(A[0], st)]
+                    ints = [self.as_int(x) for x in self.items(A[0], st)]
+                    us = [z3.Unit(x) for x in ints]
                     z = z3.Empty(BYTES) if not us else us[0] if len(us) == 1 else z3.Concat(*us)
+                    # bytes([...]) / bytearray([...]) take integers in range(256) only: ValueError otherwise
+                    sym = [x for x in ints if not z3.is_int_value(z3.simplify(x))]
+                    if sym:
+                        inr = z3.And(*[z3.And(x >= 0, x < 256) for x in sym])
+                        res = []
+                        for s2, ok in self.fork(st, inr):
+                            res.append((s2, (self.new_buf(s2, z) if name == 'bytearray' else VBytes(z)) if ok else Raise('ValueError', getattr(n, 'lineno', None))))
+                        return res
                 elif isinstance(A[0], VInt):
                     c = A[0].conc()
                     if c is None:
